@@ -11,8 +11,8 @@ FUNCTIONS = [
     "batchie.models.sparse_combo.predict (consequence clause)",
 ]
 BOUNDS = {
-    "quick": "prepared screens of 5 rows (1 observed plate, 2 unobserved plates of 2 rows, all conditions and 3 of 5 samples distinct), every hold-out choice the generator can make (fraction 1/2), every history of <=2 operations from {reveal(plate), mask, unmask, save+load, reveal via CLI}",
-    "thorough": "7 rows / 3 unobserved plates, histories of <=3 operations, fractions 1/2 and 1/3, plus the random hold-out",
+    "quick": "prepared screens of 5 rows (and 7 rows with one operation, and the random hold-out) (1 observed plate, 2 unobserved plates of 2 rows, all conditions and 3 of 5 samples distinct), every hold-out choice the generator can make (fraction 1/2), every history of <=2 operations from {reveal(plate), mask, unmask, save+load, reveal via CLI}",
+    "thorough": "5 rows with histories of <=4 operations; 7 rows / 3 unobserved plates with histories of <=3 operations, fractions 1/2 and 1/3, random hold-out with 2 operations",
 }
 ASSUMPTIONS = [
     "rng.choice(a, k, replace=False) returns an arbitrary k-subset (every one explored)",
@@ -24,18 +24,22 @@ RULE = "hold-out choices, operation codes and revealed plates are solver-enumera
 BUDGET_S = {"quick": 240, "thorough": 1500}
 TASK_QUOTA = 60
 
-ROWS5 = [("s2", "d", 1.0, "e", 1.0, "obs"), ("s0", "a", 1.0, "b", 2.0, "u1"), ("s1", "c", 1.0, "b", 1.0, "u1"),
-         ("s2", "a", 2.0, "f", 1.0, "u2"), ("s1", "g", 1.0, "", 0.0, "u2")]
-ROWS7 = ROWS5 + [("s3", "h", 1.0, "a", 1.0, "u3"), ("s0", "b", 3.0, "c", 2.0, "u3")]
+# names of pairwise different lengths: whichever sample / treatment ends up only in held-out rows may be the longest one
+ROWS5 = [("s2", "d", 1.0, "e", 1.0, "obs"), ("s0-long-name", "a", 1.0, "bb", 2.0, "u1"), ("s1x", "cccc-long", 1.0, "bb", 1.0, "u1"),
+         ("s2", "a", 2.0, "ffffff-longer", 1.0, "u2"), ("s1x", "g-the-longest-name", 1.0, "", 0.0, "u2")]
+ROWS7 = ROWS5 + [("s3-the-longest-sample", "h", 1.0, "a", 1.0, "u3"), ("s0-long-name", "bb", 3.0, "cccc-long", 2.0, "u3")]
 
 
 def configs(tier, seed):
     if tier == "quick":
-        return [dict(name="lifecycle R=5 L=2", h="life", R=5, L=2, num=1, den=2, split="balanced")]
+        return [dict(name="lifecycle R=5 L=2", h="life", R=5, L=2, num=1, den=2, split="balanced"),
+                dict(name="lifecycle R=7 L=1", h="life", R=7, L=1, num=1, den=2, split="balanced"),
+                dict(name="lifecycle R=5 L=1 random-holdout", h="life", R=5, L=1, num=2, den=5, split="random")]
     return [dict(name="lifecycle R=5 L=3", h="life", R=5, L=3, num=1, den=2, split="balanced"),
-            dict(name="lifecycle R=7 L=2", h="life", R=7, L=2, num=1, den=2, split="balanced"),
-            dict(name="lifecycle R=7 L=1 third", h="life", R=7, L=1, num=1, den=3, split="balanced"),
-            dict(name="lifecycle R=5 L=1 random-holdout", h="life", R=5, L=1, num=2, den=5, split="random")]
+            dict(name="lifecycle R=5 L=4", h="life", R=5, L=4, num=1, den=2, split="balanced"),
+            dict(name="lifecycle R=7 L=3", h="life", R=7, L=3, num=1, den=2, split="balanced"),
+            dict(name="lifecycle R=7 L=2 third", h="life", R=7, L=2, num=1, den=3, split="balanced"),
+            dict(name="lifecycle R=7 L=2 random-holdout", h="life", R=7, L=2, num=2, den=5, split="random")]
 
 
 def fixtures(cfg):
@@ -65,6 +69,13 @@ def _check_stage(ctx, stage, parent, label, theta, ref_pred_of):
             ok_t = ok_t and (tid[r][c] == _lookup_tid(tmap, tn[r][c], td[r][c]))
     ctx.prove(ok_s, "same sample name => same sample id as in the prepared screen", key="sample ids renumbered by %s" % label)
     ctx.prove(ok_t, "same (treatment, dose) => same treatment id as in the prepared screen", key="treatment ids renumbered by %s" % label)
+    # the stage's own mappings say the same as the prepared screen's: same name <-> same id, row by row
+    st_s = sorted(zip(stage.sample_mapping[0].tolist(), [int(x) for x in stage.sample_mapping[1].tolist()]))
+    pa_s = sorted(zip(parent.sample_mapping[0].tolist(), [int(x) for x in parent.sample_mapping[1].tolist()]))
+    ctx.prove(st_s == pa_s, "the stage's sample mapping lists the same (name, id) pairs as the prepared screen's", key="sample mapping changed by %s" % label)
+    st_t = sorted(zip(stage.treatment_mapping[0].tolist(), stage.treatment_mapping[1].tolist(), [int(x) for x in stage.treatment_mapping[2].tolist()]))
+    pa_t = sorted(zip(parent.treatment_mapping[0].tolist(), parent.treatment_mapping[1].tolist(), [int(x) for x in parent.treatment_mapping[2].tolist()]))
+    ctx.prove(st_t == pa_t, "the stage's treatment mapping lists the same (name, dose, id) rows as the prepared screen's", key="treatment mapping changed by %s" % label)
     ctx.prove(stage.sample_space_size >= parent.sample_space_size and stage.treatment_space_size >= parent.treatment_space_size,
               "embedding sizes implied by the screen never shrink", key="mapping shrunk by %s" % label)
     if ok_s and ok_t:
